@@ -251,14 +251,21 @@ func runC04(p *Program, r *Result) {
 			r.Bad(sub, "store:Errors", "", "expected exactly one append to NoIdentityMatchError.Errors in Decrypt, found "+itoa(len(inDec)))
 		} else {
 			s := inDec[0].Store
-			facts := tb.FactsAt(s.Block())
+			// the causes may be appended to the field in place, or collected in a local slice
+			// that becomes the field when the error is built: the site is the append
+			var site ssa.Instruction = s
+			siteVal := s.Val
+			if app := accumulatingAppend(s.Val); app != nil {
+				site, siteVal = app, app
+			}
+			facts := tb.FactsAt(site.Block())
 			a, ok := findFact(facts, func(a Atom) bool {
 				return a.Kind == "call" && a.Pol && a.Call.S == "errors.Is" && len(a.Call.Args) == 2 &&
 					short(a.Call.Args[1].String()) == "age.ErrIncorrectIdentity" && strings.HasPrefix(a.Call.Args[0].String(), "invoke (filippo.io/age.Identity).Unwrap(")
 			})
-			val := short(tb.Term(s.Val).String())
+			val := short(tb.Term(siteVal).String())
 			// the appended element is that iteration's error, as it is or wrapped by a formatting call
-			okVal := strings.HasPrefix(val, "Concat(Field(") && strings.Contains(val, ".Errors") && strings.Contains(val, "invoke (age.Identity).Unwrap(") && strings.Contains(val, ").1")
+			okVal := (strings.HasPrefix(val, "Concat(Field(") && strings.Contains(val, ".Errors") || site != ssa.Instruction(s) && strings.HasPrefix(val, "Concat(")) && strings.Contains(val, "invoke (age.Identity).Unwrap(") && strings.Contains(val, ").1")
 			if okVal && !(strings.Contains(val, "List(invoke (age.Identity).Unwrap(") && strings.HasSuffix(val, ".1))")) {
 				// wrapped: only a %w wrapper keeps errors.Is(cause, ErrIncorrectIdentity) true
 				okVal = strings.Contains(val, "fmt.Errorf(") && strings.Contains(val, "%w")
@@ -279,7 +286,7 @@ func runC04(p *Program, r *Result) {
 					}
 					ph, isPhi := in.(*ssa.Phi)
 					return isPhi && ph.Comment == "rangeindex"
-				}, func(in ssa.Instruction) bool { return in == ssa.Instruction(s) })
+				}, func(in ssa.Instruction) bool { return in == site })
 				if len(bad) > 0 {
 					r.Bad(sub, "store:Errors", r.pos(s), "a path from the sentinel edge reaches "+r.pos(bad[0])+" without recording the identity's error")
 				} else {
@@ -307,4 +314,46 @@ func runC04(p *Program, r *Result) {
 	r.Rule("R03.6", "every error return carries a nil reader", 8)
 	checkNothingOnError(p, r, dec, map[string]bool{newReader.String(): true})
 	checkNothingOnError(p, r, newReader, nil)
+}
+
+// accumulatingAppend: v is a slice collected by a loop — a merge (possibly nested) one of whose
+// incoming values is append(<the merge>, ...). It returns that append.
+func accumulatingAppend(v ssa.Value) *ssa.Call {
+	seen := map[ssa.Value]bool{}
+	var phis []*ssa.Phi
+	var apps []*ssa.Call
+	var walk func(x ssa.Value)
+	walk = func(x ssa.Value) {
+		x = stripConv(x)
+		if seen[x] {
+			return
+		}
+		seen[x] = true
+		switch y := x.(type) {
+		case *ssa.Phi:
+			phis = append(phis, y)
+			for _, e := range y.Edges {
+				walk(e)
+			}
+		case *ssa.Call:
+			if isBuiltin(&y.Call, "append") {
+				apps = append(apps, y)
+				walk(y.Call.Args[0])
+			}
+		}
+	}
+	if _, isPhi := stripConv(v).(*ssa.Phi); !isPhi {
+		return nil
+	}
+	walk(v)
+	if len(apps) != 1 {
+		return nil
+	}
+	// the append extends the accumulator itself
+	for _, ph := range phis {
+		if stripConv(apps[0].Call.Args[0]) == ssa.Value(ph) {
+			return apps[0]
+		}
+	}
+	return nil
 }
